@@ -492,6 +492,17 @@ def rule_D7b(tree: Tree) -> RuleResult:
         r.ob(by_cid and nonempty, Finding("D7b", "main:handle_quic_packet:nonempty-cid",
                                           f"`{src(c, 60)}` is reached under {[s for s, t in txt if t][:4]}: a connection-ID match must require a non-empty ID — an empty ID is a prefix of every "
                                           f"short header and is shared by all zero-length-CID connections, so one session swallows other connections' datagrams", f.module.line(c)))
+    # dispatch inventory: every hand-over of the datagram in the demultiplexer is one of the matched ones above or goes to the session created for it
+    r.instances += 1
+    stray = []
+    for c in body_walk(f.node):
+        if isinstance(c, ast.Call) and isinstance(c.func, ast.Attribute) and c.func.attr in ("handle_packet", "handle_quic_packet", "decrypt_packet") and c not in calls:
+            recv = dotted(c.func.value)
+            created = [a for a in body_walk(f.node) if isinstance(a, ast.Assign) and dotted(a.targets[0]) == recv and isinstance(a.value, ast.Call) and dotted(a.value.func) == "QuicSession"]
+            if not (recv and created and cfg.dominates(cfg.node_of(created[0]), cfg.node_of(c))):
+                stray.append(src(c, 70))
+    r.ob(not stray, Finding("D7b", "main:handle_quic_packet:unmatched-dispatch",
+                            f"`{stray[0] if stray else ''}` hands the datagram to a session that neither matched it (connection ID / 4-tuple) nor was created for it", f.module.line(f.node)))
     r.instances += 1
     r.ob(kinds == {"cid", "tuple"}, Finding("D7b", "main:handle_quic_packet:match-kinds", "datagrams are matched by connection ID first and by 4-tuple otherwise", f.module.line(f.node)))
     # new sessions only for long headers
